@@ -1025,6 +1025,8 @@ class World(object):
                         kw["tags"] = list(nd["rspec"]["tags"])
                     if nd["rspec"].get("links") is not None:
                         kw["links"] = dict(nd["rspec"]["links"])
+                    if nd["rspec"].get("content") is not None:
+                        kw["content"] = nd["rspec"]["content"]
                 ctype = TYPES[t]
                 if nimp:
                     # a component type with implicit (class-level) requirements, as third-party types declare them
@@ -1663,6 +1665,8 @@ def remove_node(case, k):
             nd["toggles"] = [[j, st] for j, st in nd["toggles"] if j < len(nodes) and j != i and i in closure(nodes, [j])]
             if not nd["toggles"]:
                 nd.pop("toggles")
+    if c.get("retag") is not None:
+        c["retag"] = [dict(rt, node=rt["node"] - 1 if rt["node"] > k else rt["node"]) for rt in c["retag"] if rt["node"] != k]
     c["seeded"] = remap(c["seeded"])
     if c["targets"] is not None:
         c["targets"] = remap(c["targets"]) or None
